@@ -12,7 +12,6 @@ import json
 import os
 import pwd
 import shutil
-import stat
 import time
 
 from .. import core, build, hrun, sandbox
@@ -816,16 +815,25 @@ def main(tier):
     if os.geteuid() != 0:
         raise core.Inconclusive("C11 needs root (qmail-lspawn switches users)")
     b = build.vbuild("asan")
-    hc = b.compile_harness(os.path.join(core.VERIF, "harness/h_cdb.c"), extra_objs=CDB_OBJS)
     ntab = core.scaled(48000 if tier == "quick" else 1600000)
     ncase = core.scaled(1500 if tier == "quick" else 30000)
-    jobs = [["rand", max(1, ntab // 32), core.seed() * 100000 + j] for j in range(32)]
-    res = hrun.run_many(hc, jobs, b.env(), timeout=1800)
+    harness_problem = None
+    try:
+        hc = b.compile_harness(os.path.join(core.VERIF, "harness/h_cdb.c"), extra_objs=CDB_OBJS)
+        jobs = [["rand", max(1, ntab // 32), core.seed() * 100000 + j] for j in range(32)]
+        res = hrun.run_many(hc, jobs, b.env(), timeout=1800)
+    except core.Inconclusive as e:
+        # the whole-program monitor below does not depend on internal names; run it anyway
+        harness_problem = str(e)
+        res = core.Result()
     res.counters["cdb_lookups"] = res.evaluations
+    res.samples = [{"cdb_key": x} for x in res.samples[:2]]
     tools = snapshot_tools()
     wres = core.pmap(worker, [(b.dir, tools, lo, hi, tier) for lo, hi in core.chunks(ncase, core.JOBS * 2)], timeout=7200)
     res.merge(wres)
-    return core.finish(PROP, tier, "exploration", res, RULE % (ntab, ncase, 50 if tier == "quick" else 100), t0, assumptions=[
+    if harness_problem:
+        res.inconclusive.append(harness_problem[:600])
+    rc = core.finish(PROP, tier, "exploration", res, RULE % (ntab, ncase, 50 if tier == "quick" else 100), t0, assumptions=[
         "reference model nqv/refmodel/users_model.py written from qmail-users(5), qmail-getpw(8), qmail-lspawn(8), qmail-newu(8)",
         "privilege order is read from the shim's per-process log of setgroups/setgid/setuid (execv itself is not visible to the "
         "shim; the state at exec is what ql-rec records in the same process id)",
@@ -833,6 +841,10 @@ def main(tier):
         "damaged users/cdb: outcome must equal what an independent reader finds in the same bytes; a pointer/length leaving the "
         "file must give a Z report; 32-bit wrap-around of a table offset or a data length >= 2^31 is left unjudged except for 'never root'",
         "group-membership of conf-users accounts and conf-break '-' as in the scratch build"])
+    if harness_problem and rc == 0:
+        print("INCONCLUSIVE property=%s: harness h_cdb.c does not build against this tree (whole-program part was silent)" % PROP)
+        return 2
+    return rc
 
 
 def replay(path):
